@@ -1101,14 +1101,49 @@ Proof.
   apply response_iin_conf in E. intros H; inv_pair H. exists o0. rewrite bcast_reported_sol_buf. auto.
 Qed.
 
+Lemma to_treq_accept cfg from d ctl fn obj :
+  to_treq cfg from d = TqRequest ctl fn obj ->
+  d = DOk ctl fn RvOk obj /\ (o_any_master cfg || (from =? o_master cfg)) = true.
+Proof.
+  intros H. split; [eapply L12.to_treq_request; eauto|]. unfold to_treq in H.
+  destruct (o_any_master cfg), (from =? o_master cfg); try reflexivity; discriminate H.
+Qed.
+
+Lemma classify_sol_confirm s bc bytes ctl fn obj q :
+  classify s bc bytes ctl fn obj = FtSolConfirm q ->
+  bc = None /\ (fn =? fn_confirm) = true /\ ctl_uns ctl = false /\ q = ctl_seq ctl.
+Proof.
+  destruct bc as [mb|]; [discriminate|]. unfold classify.
+  destruct (fn =? fn_confirm); [destruct (ctl_uns ctl); intros H; inversion H; auto|].
+  destruct obj as [e|hdrs rh]; [discriminate|].
+  destruct (match s_last s with Some l => (lr_seq l =? ctl_seq ctl) && bytes_eqb (lr_bytes l) bytes | None => false end);
+    destruct (fn =? fn_read); discriminate.
+Qed.
+
+Lemma classify_repeat_read s bc bytes ctl fn obj resp hdrs rh :
+  classify s bc bytes ctl fn obj = FtRepeatRead resp hdrs rh ->
+  bc = None /\ fn = fn_read /\
+  exists l, s_last s = Some l /\ resp = lr_response l /\ lr_bytes l = bytes /\ lr_seq l = ctl_seq ctl.
+Proof.
+  destruct bc as [mb|]; [discriminate|]. unfold classify.
+  destruct (fn =? fn_confirm); [destruct (ctl_uns ctl); discriminate|].
+  destruct obj as [e|hdrs0 rh0]; [discriminate|].
+  destruct (s_last s) as [l|]; [|destruct (fn =? fn_read); discriminate].
+  destruct ((lr_seq l =? ctl_seq ctl) && bytes_eqb (lr_bytes l) bytes) eqn:E; destruct (fn =? fn_read) eqn:E1; try discriminate.
+  intros H; inversion H; subst. apply andb_true_iff in E as [E2 E3]. apply N.eqb_eq in E2. apply bytes_eqb_eq in E3.
+  apply N.eqb_eq in E1. split; [reflexivity|]. split; [exact E1|]. exists l. auto.
+Qed.
+
 Lemma sol_wait_fragment_c11 cfg s se dl from bc bytes d out o :
   sol_wait_fragment cfg s se dl from bc bytes d = (out, o) ->
   match out with
   | SoStay dl' =>
       (dl' = dl /\ forallb neutb o = true) \/
       (dl' = confirm_deadline cfg s /\
-       o = match (match s_last s with Some l => lr_response l | None => None end) with
-           | Some r => repeat_solicited s from r | None => [] end)
+       exists ctl fn obj resp hdrs rh,
+         to_treq cfg from d = TqRequest ctl fn obj /\
+         classify s bc bytes ctl fn obj = FtRepeatRead resp hdrs rh /\
+         o = match resp with Some r => repeat_solicited s from r | None => [] end)
   | SoConfirmed rt =>
       rt = from /\ o = [OInfo (ISolConfirmed (se_ecsn se))] /\
       confirm_of cfg (ERx from bc bytes d) = Some (se_ecsn se, from)
@@ -1118,21 +1153,14 @@ Proof.
   unfold sol_wait_fragment. destruct (to_treq cfg from d) as [|q|ctl fn obj] eqn:Et.
   - intros H; inv_pair H. left. auto.
   - intros H; inv_pair H. reflexivity.
-  - unfold to_treq in Et.
-    destruct (negb (o_any_master cfg) && negb (from =? o_master cfg)) eqn:Em; [discriminate|].
-    destruct d as [|sq code|ctl0 fn0 [|] obj0]; try discriminate. inversion Et; subst ctl0 fn0 obj0. clear Et.
-    destruct bc as [mb|]; [cbn [classify]; intros H; inv_pair H; reflexivity|].
-    unfold classify. destruct (fn =? fn_confirm) eqn:E0.
-    { destruct (ctl_uns ctl) eqn:Eu.
-      - intros H; inv_pair H. left. auto.
-      - destruct (ctl_seq ctl =? se_ecsn se) eqn:Eq; intros H; inv_pair H; [|left; auto].
-        apply N.eqb_eq in Eq. split; [reflexivity|]. split; [reflexivity|].
-        cbn [confirm_of]. rewrite E0, Eu, Eq.
-        destruct (o_any_master cfg), (from =? o_master cfg); try discriminate Em; reflexivity. }
-    destruct obj as [iin2|hdrs rh]; [intros H; inv_pair H; reflexivity|].
-    destruct (match s_last s with Some l => (lr_seq l =? ctl_seq ctl) && bytes_eqb (lr_bytes l) bytes | None => false end).
-    + destruct (fn =? fn_read); intros H; inv_pair H; [|reflexivity]. right. auto.
-    + destruct (fn =? fn_read); intros H; inv_pair H; reflexivity.
+  - destruct (classify s bc bytes ctl fn obj) as [iin2|hdrs rh|resp hdrs rh|hdrs|resp|mb|q|q] eqn:Ecl;
+      intros H; try (inv_pair H; reflexivity).
+    + inv_pair H. right. split; [reflexivity|]. exists ctl, fn, obj, resp, hdrs, rh. auto.
+    + apply classify_sol_confirm in Ecl as (-> & E0 & Eu & ->). apply to_treq_accept in Et as [-> Em].
+      destruct (ctl_seq ctl =? se_ecsn se) eqn:Eq; inv_pair H; [|left; auto].
+      apply N.eqb_eq in Eq. split; [reflexivity|]. split; [reflexivity|].
+      cbn [confirm_of]. rewrite Em, E0, Eu, Eq. reflexivity.
+    + inv_pair H. left. auto.
 Qed.
 
 (* ---------- the timers ------------------------------------------------------------------------------------------ *)
@@ -1230,157 +1258,369 @@ Proof.
     inv_pair H; reflexivity.
 Qed.
 
+(* what the solicited confirm wait itself transmits on a received fragment: the next fragment of the
+   series after the expected confirm, or the awaited fragment again for a repeat of the READ *)
+Definition wait_tx (cfg : ocfg) (s0 : ostate) (se : series) (from : N) (bc : option bcast_mode) (bytes : list N)
+           (d : digest) (o_w : list oobs) : Prop :=
+  forall dest b, In (OTx dest b) o_w ->
+    (confirm_of cfg (ERx from bc bytes d) = Some (se_ecsn se, dest) /\ se_fin se = false /\
+     nth 1 b 0 = 129 /\ c_fir (nth 0 b 0) = false /\ ctl_seq (nth 0 b 0) = seq16_next (se_ecsn se) /\
+     tx_bits_ok (nth 0 b 0) = true)
+    \/
+    (exists ctl fn obj hdrs rh l r0,
+       to_treq cfg from d = TqRequest ctl fn obj /\
+       classify s0 bc bytes ctl fn obj = FtRepeatRead (Some r0) hdrs rh /\
+       s_last s0 = Some l /\ lr_response l = Some r0 /\ ctl_seq (r_ctl r0) = se_ecsn se /\
+       dest = from /\ b = response_bytes r0 (s_sol_buf s0)).
+
 Section Rx.
   Variable cfg : ocfg.
   Notation cms := (o_confirm_ms cfg).
   Notation ok := (okrun false (o_confirm_ms cfg)).
 
-  Lemma on_rx_good s from bc bytes d s' o m :
-    on_rx cfg s from bc bytes d = (s', o) -> dcons bytes d -> Good s m ->
-    m_cur m = confirm_of cfg (ERx from bc bytes d) ->
-    ok m o (Good s').
+  (* a fragment received in the solicited confirm wait: the reaction of the wait (o_w), then possibly
+     the idle loop resumed from an intermediate state (o_t) *)
+  Lemma sol_wait_rx s from bc bytes d s' o m se dl r :
+    on_rx cfg s from bc bytes d = (s', o) -> s_control s = CSolWait se dl r ->
+    dcons bytes d -> Good s m -> m_cur m = confirm_of cfg (ERx from bc bytes d) ->
+    exists o_w o_t s_i m_i,
+      o = o_w ++ o_t /\ ok m o_w (fun x => x = m_i) /\ Good s_i m_i /\
+      ((s' = s_i /\ o_t = []) \/ exists stg, s_control s_i = CIdle /\ resume_at cfg stg s_i = (s', o_t)) /\
+      wait_tx cfg (upd_frame_id s ((s_frame_id s + 1) mod 4294967296)) se from bc bytes d o_w /\
+      ~ In OOutOfFuel o_w.
   Proof.
-    unfold on_rx. cbv zeta. intros H Hdc HG Hcur.
+    unfold on_rx. cbv zeta. intros H Ec Hdc HG Hcur.
     set (fid := (s_frame_id s + 1) mod 4294967296) in *.
     set (s0 := upd_frame_id s fid) in *.
     assert (HG0 : Good s0 m) by (eapply Good_same; [..|exact HG]; reflexivity).
     pose proof (Good_nconf _ _ HG0) as Hnc.
-    change (s_control s0) with (s_control s) in H.
+    change (s_control s0) with (s_control s) in H. rewrite Ec in H.
+    assert (Ec0 : s_control s0 = CSolWait se dl r) by exact Ec.
+    destruct (sol_wait_fragment cfg s0 se dl from bc bytes d) as [out o1] eqn:E1.
+    pose proof (sol_wait_fragment_c11 _ _ _ _ _ _ _ _ _ _ E1) as Hsw.
+    pose proof HG0 as [(Gl & Gd & Gp & Gu & Gw) [Hclk Hr]]. rewrite Ec0 in Hr.
+    destruct (Gw _ _ _ Ec0) as (Hq & l & r0 & Hl & Hr0 & Hseq & Hfin & Hcon & Hrd).
+    destruct (Gl _ _ Hl Hr0) as [[Hfn0 Hbits0] _].
+    destruct out as [dl'|rt|].
+    - (* the wait goes on *)
+      inv_pair H. destruct Hsw as [[-> Hn]|[-> (ctl & fn & obj & resp & hdrs & rh & Et & Ecl & Ho)]].
+      + exists o, [], (upd_control s0 (CSolWait se dl r)), m. split; [rewrite app_nil_r; reflexivity|].
+        split; [apply okrun_neut; [exact Hn|exact Hnc|reflexivity]|].
+        split; [eapply Good_same; [..|exact HG0]; try reflexivity; psimpl; auto|].
+        split; [left; auto|]. split.
+        * intros dest b Hin. exfalso. clear - Hn Hin. induction o as [|x o IH]; [exact Hin|].
+          cbn [forallb] in Hn. apply andb_true_iff in Hn as [A B]. destruct Hin as [-> |Hin]; [discriminate A|auto].
+        * intros Hin. clear - Hn Hin. induction o as [|x o IH]; [exact Hin|].
+          cbn [forallb] in Hn. apply andb_true_iff in Hn as [A B]. destruct Hin as [-> |Hin]; [discriminate A|auto].
+      + pose proof (classify_repeat_read _ _ _ _ _ _ _ _ _ Ecl) as (_ & _ & l1 & Hl1 & Hresp & _).
+        assert (l1 = l) by congruence. subst l1. rewrite Hr0 in Hresp. subst resp o. unfold repeat_solicited.
+        set (m1 := set_ph m (POpen (se_ecsn se) (se_fin se) (m_clock m + cms))).
+        exists [OTx from (response_bytes r0 (s_sol_buf s0))], [],
+               (upd_control s0 (CSolWait se (confirm_deadline cfg s0) r)), m1.
+        split; [reflexivity|]. split; [|split; [|split; [left; auto|split]]].
+        * eapply okrun_cons with (m1 := m1); [discriminate| |apply okrun_nil; reflexivity].
+          cbn [mon_ob]. unfold mon_tx. rewrite nth1_response_bytes, nth0_response_bytes, Hfn0.
+          change (129 =? 129) with true. cbv iota. rewrite Hbits0, Hr. cbn [negb andb].
+          rewrite Hseq, N.eqb_refl, Hfin, Bool.eqb_reflx, Hcon. reflexivity.
+        * split; [split; [exact Gl|split; [exact Gd|split; [exact Gp|split]]]|].
+          -- intros a b c e X. psimpl_in X. discriminate.
+          -- intros se0 dl0 rs0 X. psimpl_in X. inversion X; subst se0 dl0 rs0. split; [exact Hq|].
+             exists l, r0. repeat split; auto.
+          -- split; [exact Hclk|]. psimpl. subst m1. cbn [set_ph m_ph]. unfold confirm_deadline. rewrite Hclk. reflexivity.
+        * intros dest b [Hin|[]]. inversion Hin; subst dest b. right.
+          exists ctl, fn, obj, hdrs, rh, l, r0. repeat split; auto.
+        * intros [X|[]]. discriminate X.
+    - (* the expected confirm *)
+      destruct Hsw as (-> & -> & Hcf). rewrite Hcf in Hcur.
+      set (mC := {| m_ph := if se_fin se then PIdle else PConf (se_ecsn se) from; m_cur := None; m_clock := m_clock m |}).
+      assert (HmC : mon_ob false cms m (OInfo (ISolConfirmed (se_ecsn se))) = Some mC).
+      { cbn [mon_ob]. rewrite Hr, Hcur, !N.eqb_refl. reflexivity. }
+      destruct (se_fin se) eqn:Ef.
+      + destruct (resume_at cfg (stage_of r) (upd_control (upd_last_bcast s0 None) CIdle)) as [s2 o2] eqn:E2. inv_pair H.
+        exists [OInfo (ISolConfirmed (se_ecsn se)); ODb DbClearWritten], o2, (upd_control (upd_last_bcast s0 None) CIdle), mC.
+        split; [reflexivity|]. split; [|split; [|split; [right; eauto|split]]].
+        * eapply okrun_cons; [discriminate|exact HmC|].
+          eapply okrun_cons with (m1 := mC); [discriminate|reflexivity|apply okrun_nil; reflexivity].
+        * split; [split; [exact Gl|split; [exact Gd|split; [exact Gp|split]]]|].
+          -- apply g_uw_idle. reflexivity.
+          -- apply g_wait_idle. reflexivity.
+          -- split; [exact Hclk|exact I].
+        * intros dest b [X|[X|[]]]; discriminate X.
+        * intros [X|[X|[]]]; discriminate X.
+      + destruct (format_read_response (upd_last_bcast s0 None) false (seq16_next (se_ecsn se)) 0) as [[[s2 rsp] next] o2] eqn:E2.
+        destruct (write_solicited s2 from rsp) as [[s3 rsp'] o3] eqn:E3.
+        pose proof (format_read_response_c11 _ _ _ _ _ _ _ _ E2) as (complete & nc & Hfn & Hctl & Hnext & Hor).
+        pose proof (format_read_response_conf _ _ _ _ _ _ _ _ E2) as S2.
+        pose proof (format_read_response_bcast _ _ _ _ _ _ _ _ E2) as Hb2.
+        pose proof (L12.format_read_response_spec _ _ _ _ _ _ _ _ E2) as ((Bn & Bc & Bl & _ & _ & Bd & _ & Bp & _) & _).
+        pose proof (write_solicited_nobcast _ _ _ _ _ _ Hb2 E3) as Hctl'.
+        pose proof (write_solicited_conf _ _ _ _ _ _ E3) as (pre & -> & S3).
+        pose proof (L12.write_solicited_spec _ _ _ _ _ _ E3) as ((Cn & Cc & Cl & _ & _ & Cd & _ & Cp & _) & _ & Hfn' & _).
+        clear E2 E3. psimpl_in Bn. psimpl_in Bc. psimpl_in Bl. psimpl_in Bd. psimpl_in Bp.
+        assert (Hl3 : s_last s3 = Some l) by (rewrite Cl, Bl; exact Hl).
+        assert (Hn3 : s_now s3 = s_now s0) by (rewrite Cn, Bn; reflexivity).
+        assert (Hd3 : s_deferred s3 = s_deferred s0) by (rewrite Cd, Bd; reflexivity).
+        assert (Hp3 : s_pending s3 = s_pending s0) by (rewrite Cp, Bp; reflexivity).
+        rewrite Hl3 in H.
+        set (l' := {| lr_seq := lr_seq l; lr_bytes := lr_bytes l; lr_response := Some rsp'; lr_series := lr_series l |}) in *.
+        set (s4 := upd_last s3 (Some l')) in *.
+        set (q' := seq16_next (se_ecsn se)) in *.
+        assert (Hq' : q' < 16) by apply L12.seq16_next_lt.
+        assert (Hc' : r_ctl rsp' = ctl_byte false complete nc false q') by congruence.
+        assert (Hok' : resp_ok rsp').
+        { split; [congruence|]. rewrite Hc'. apply tx_bits_ctl_byte. exact Hor. }
+        set (m2 := set_ph mC (if nc then POpen q' complete (m_clock m + cms) else PIdle)).
+        set (tx := OTx from (response_bytes rsp' (s_sol_buf s3))).
+        assert (Htx : mon_ob false cms mC tx = Some m2).
+        { subst tx. cbn [mon_ob]. unfold mon_tx. rewrite nth1_response_bytes, nth0_response_bytes.
+          destruct Hok' as [-> ->]. change (129 =? 129) with true. cbv iota. cbn [negb].
+          subst mC. cbn [m_ph m_clock]. rewrite Hc'. unfold c_fir, c_fin.
+          rewrite L12.ctl_byte_fir, L12.ctl_byte_seq, L12.ctl_byte_con, L12.ctl_byte_fin.
+          rewrite (N.mod_small _ _ Hq'). fold q'. rewrite !N.eqb_refl. reflexivity. }
+        assert (Hlast4 : g_last s4).
+        { intros x y Hx Hy. subst s4 l'. psimpl_in Hx. inversion Hx; subst x. cbn [lr_response lr_bytes] in *.
+          inversion Hy; subst y. split; [exact Hok'|]. intros X. rewrite (Hrd eq_refl) in X. discriminate. }
+        set (o_w := [OInfo (ISolConfirmed (se_ecsn se))] ++ [ODb DbClearWritten] ++ o2 ++ pre ++ [tx]).
+        assert (Hrun : ok m o_w (fun x => x = m2)).
+        { subst o_w. cbn [app]. eapply okrun_cons; [discriminate|exact HmC|].
+          eapply okrun_cons with (m1 := mC); [discriminate|reflexivity|].
+          eapply okrun_app with (Q := fun x => x = mC); [apply okrun_conf; auto|]. intros ? ->.
+          eapply okrun_app with (Q := fun x => x = mC); [apply okrun_conf; auto|]. intros ? ->.
+          eapply okrun_cons; [discriminate|exact Htx|]. apply okrun_nil. reflexivity. }
+        assert (Hconf_in : forall (oo : list oobs) x, forallb confb oo = true -> In x oo -> confb x = true).
+        { intros oo x Ho Hin. rewrite forallb_forall in Ho. auto. }
+        assert (Hwtx : wait_tx cfg s0 se from bc bytes d o_w).
+        { intros dest b Hin. subst o_w. cbn [app] in Hin. destruct Hin as [X|[X|Hin]]; try discriminate X.
+          apply in_app_or in Hin as [Hin|Hin]; [apply (Hconf_in _ _ S2) in Hin; discriminate Hin|].
+          apply in_app_or in Hin as [Hin|Hin]; [apply (Hconf_in _ _ S3) in Hin; discriminate Hin|].
+          destruct Hin as [X|[]]. subst tx. inversion X; subst dest b. left.
+          rewrite nth1_response_bytes, nth0_response_bytes. destruct Hok' as [A B].
+          split; [exact Hcf|]. split; [exact Ef|]. split; [exact A|]. rewrite Hc'. unfold c_fir.
+          rewrite L12.ctl_byte_fir, L12.ctl_byte_seq, (N.mod_small _ _ Hq'). repeat split; auto.
+          rewrite <- Hc'. exact B. }
+        assert (Hnf : ~ In OOutOfFuel o_w).
+        { intros Hin. subst o_w. cbn [app] in Hin. destruct Hin as [X|[X|Hin]]; try discriminate X.
+          apply in_app_or in Hin as [Hin|Hin]; [apply (Hconf_in _ _ S2) in Hin; discriminate Hin|].
+          apply in_app_or in Hin as [Hin|Hin]; [apply (Hconf_in _ _ S3) in Hin; discriminate Hin|].
+          destruct Hin as [X|[]]. subst tx. discriminate X. }
+        destruct nc; subst next.
+        * inv_pair H.
+          exists o_w, [], (upd_control s4 (CSolWait {| se_ecsn := q'; se_fin := complete |} (confirm_deadline cfg s4) r)), m2.
+          split; [rewrite app_nil_r; reflexivity|]. split; [exact Hrun|]. split; [|split; [left; auto|split; assumption]].
+          split; [split; [exact Hlast4|split; [|split; [|split]]]|].
+          -- intros x X. apply (Gd x). subst s4. psimpl_in X. rewrite <- Hd3. exact X.
+          -- intros a b c e f X. apply (Gp a b c e f). subst s4. psimpl_in X. rewrite <- Hp3. exact X.
+          -- intros a b c e X. psimpl_in X. discriminate.
+          -- intros se0 dl0 rs0 X. psimpl_in X. inversion X; subst se0 dl0 rs0. cbn [se_ecsn se_fin].
+             split; [exact Hq'|]. exists l', rsp'. subst s4. psimpl. split; [reflexivity|]. split; [reflexivity|].
+             rewrite Hc'. unfold c_fin. rewrite L12.ctl_byte_seq, L12.ctl_byte_fin, L12.ctl_byte_con.
+             rewrite (N.mod_small _ _ Hq'). repeat split; auto.
+          -- split.
+             ++ subst m2 mC s4. cbn [set_ph m_clock]. psimpl. rewrite Hn3. exact Hclk.
+             ++ subst m2 mC s4. psimpl. cbn [set_ph m_ph se_ecsn se_fin]. unfold confirm_deadline. psimpl.
+                rewrite Hclk, Hn3. reflexivity.
+        * destruct (resume_at cfg (stage_of r) (upd_control s4 CIdle)) as [s5 o5] eqn:E5. inv_pair H.
+          exists o_w, o5, (upd_control s4 CIdle), m2.
+          split; [subst o_w tx; cbn [app]; rewrite <- ?app_assoc; reflexivity|].
+          split; [exact Hrun|]. split; [|split; [right; eauto|split; assumption]].
+          split; [split; [exact Hlast4|split; [|split; [|split]]]|].
+          -- intros x X. apply (Gd x). subst s4. psimpl_in X. rewrite <- Hd3. exact X.
+          -- intros a b c e f X. apply (Gp a b c e f). subst s4. psimpl_in X. rewrite <- Hp3. exact X.
+          -- apply g_uw_idle. reflexivity.
+          -- apply g_wait_idle. reflexivity.
+          -- split; [|exact I]. subst m2 mC s4. cbn [set_ph m_clock]. psimpl. rewrite Hn3. exact Hclk.
+    - (* anything else aborts the series *)
+      subst o1.
+      destruct (resume_at cfg (stage_of r) (upd_pending (upd_control s0 CIdle) (Some (from, bc, bytes, d, fid))))
+        as [s2 o2] eqn:E2. inv_pair H.
+      exists [OInfo ISolNewRequest; ODb DbReset], o2, (upd_pending (upd_control s0 CIdle) (Some (from, bc, bytes, d, fid))), (set_ph m PIdle).
+      split; [reflexivity|]. split; [|split; [|split; [right; eauto|split]]].
+      + eapply okrun_cons with (m1 := set_ph m PIdle); [discriminate|cbn [mon_ob]; rewrite Hr; reflexivity|].
+        eapply okrun_cons with (m1 := set_ph m PIdle); [discriminate|reflexivity|apply okrun_nil; reflexivity].
+      + split; [split; [exact Gl|split; [exact Gd|split; [|split]]]|].
+        * intros a b c e f X. psimpl_in X. inversion X; subst. exact Hdc.
+        * apply g_uw_idle. reflexivity.
+        * apply g_wait_idle. reflexivity.
+        * split; [exact Hclk|exact I].
+      + intros dest b [X|[X|[]]]; discriminate X.
+      + intros [X|[X|[]]]; discriminate X.
+  Qed.
+
+  (* `st = true`: outside the solicited confirm wait the strict monitor accepts too *)
+  Lemma on_rx_good st s from bc bytes d s' o m :
+    on_rx cfg s from bc bytes d = (s', o) -> dcons bytes d -> Good s m ->
+    (~ nwait s -> m_cur m = confirm_of cfg (ERx from bc bytes d)) -> (st = true -> nwait s) ->
+    okrun st cms m o (Good s').
+  Proof.
+    intros H Hdc HG Hcur Hst.
     destruct (s_control s) as [|se dl r|resp n ret dl] eqn:Ec.
     - (* idle *)
+      unfold on_rx in H. cbv zeta in H.
+      set (fid := (s_frame_id s + 1) mod 4294967296) in *.
+      set (s0 := upd_frame_id s fid) in *.
+      assert (HG0 : Good s0 m) by (eapply Good_same; [..|exact HG]; reflexivity).
+      change (s_control s0) with (s_control s) in H. rewrite Ec in H.
       eapply idle_loop_good; [exact H|exact Ec|].
       destruct HG0 as [(A & B & C & D & E) R]. split; [|exact R].
       split; [exact A|split; [exact B|split; [|split; [exact D|exact E]]]].
       intros a b c e f X. psimpl_in X. inversion X; subst. exact Hdc.
     - (* solicited confirm wait *)
-      assert (Ec0 : s_control s0 = CSolWait se dl r) by exact Ec.
-      destruct (sol_wait_fragment cfg s0 se dl from bc bytes d) as [out o1] eqn:E1.
-      pose proof (sol_wait_fragment_c11 _ _ _ _ _ _ _ _ _ _ E1) as Hsw.
-      pose proof HG0 as [(Gl & Gd & Gp & Gu & Gw) [Hclk Hr]]. rewrite Ec0 in Hr.
-      destruct (Gw _ _ _ Ec0) as (Hq & l & r0 & Hl & Hr0 & Hseq & Hfin & Hcon & Hrd).
-      destruct (Gl _ _ Hl Hr0) as [[Hfn0 Hbits0] _].
-      destruct out as [dl'|rt|].
-      + (* the wait goes on *)
-        inv_pair H. destruct Hsw as [[-> Hn]|[-> Ho]].
-        * apply okrun_neut; [exact Hn|exact Hnc|]. eapply Good_same; [..|exact HG0]; try reflexivity. psimpl. auto.
-        * rewrite Hl, Hr0 in Ho. subst o. unfold repeat_solicited.
-          eapply okrun_cons with (m1 := set_ph m (POpen (se_ecsn se) (se_fin se) (m_clock m + cms)));
-            [discriminate| |apply okrun_nil].
-          -- cbn [mon_ob]. unfold mon_tx. rewrite nth1_response_bytes, nth0_response_bytes, Hfn0.
-             change (129 =? 129) with true. cbv iota. rewrite Hbits0, Hr. cbn [negb andb].
-             rewrite Hseq, N.eqb_refl, Hfin, Bool.eqb_reflx, Hcon. reflexivity.
-          -- split; [split; [exact Gl|split; [exact Gd|split; [exact Gp|split]]]|].
-             ++ intros a b c e X. psimpl_in X. discriminate.
-             ++ intros se0 dl0 rs0 X. psimpl_in X. inversion X; subst se0 dl0 rs0. split; [exact Hq|].
-                exists l, r0. repeat split; auto.
-             ++ split; [exact Hclk|]. psimpl. cbn [set_ph m_ph]. unfold confirm_deadline. rewrite Hclk. reflexivity.
-      + (* the expected confirm *)
-        destruct Hsw as (-> & -> & Hcf). rewrite Hcf in Hcur.
-        set (mC := {| m_ph := if se_fin se then PIdle else PConf (se_ecsn se) from; m_cur := None; m_clock := m_clock m |}).
-        assert (HmC : mon_ob false cms m (OInfo (ISolConfirmed (se_ecsn se))) = Some mC).
-        { cbn [mon_ob]. rewrite Hr, Hcur, !N.eqb_refl. reflexivity. }
-        set (s1 := upd_last_bcast s0 None) in *.
-        destruct (se_fin se) eqn:Ef.
-        * destruct (resume_at cfg (stage_of r) (upd_control s1 CIdle)) as [s2 o2] eqn:E2. inv_pair H.
-          cbn [app]. eapply okrun_cons; [discriminate|exact HmC|].
-          eapply okrun_cons with (m1 := mC); [discriminate|reflexivity|].
-          eapply resume_at_good; [exact E2|reflexivity|].
-          split; [split; [exact Gl|split; [exact Gd|split; [exact Gp|split]]]|].
-          -- apply g_uw_idle. reflexivity.
-          -- apply g_wait_idle. reflexivity.
-          -- split; [exact Hclk|exact I].
-        * destruct (format_read_response s1 false (seq16_next (se_ecsn se)) 0) as [[[s2 rsp] next] o2] eqn:E2.
-          destruct (write_solicited s2 from rsp) as [[s3 rsp'] o3] eqn:E3.
-          pose proof (format_read_response_c11 _ _ _ _ _ _ _ _ E2) as (complete & nc & Hfn & Hctl & Hnext & Hor).
-          pose proof (format_read_response_conf _ _ _ _ _ _ _ _ E2) as S2.
-          pose proof (format_read_response_bcast _ _ _ _ _ _ _ _ E2) as Hb2.
-          pose proof (L12.format_read_response_spec _ _ _ _ _ _ _ _ E2) as ((Bn & Bc & Bl & _ & _ & Bd & _ & Bp & _) & _).
-          pose proof (write_solicited_nobcast _ _ _ _ _ _ Hb2 E3) as Hctl'.
-          pose proof (write_solicited_conf _ _ _ _ _ _ E3) as (pre & -> & S3).
-          pose proof (L12.write_solicited_spec _ _ _ _ _ _ E3) as ((Cn & Cc & Cl & _ & _ & Cd & _ & Cp & _) & _ & Hfn' & _).
-          clear E2 E3. subst s1. psimpl_in Bn. psimpl_in Bc. psimpl_in Bl. psimpl_in Bd. psimpl_in Bp.
-          assert (Hl3 : s_last s3 = Some l) by (rewrite Cl, Bl; exact Hl).
-          assert (Hn3 : s_now s3 = s_now s0) by (rewrite Cn, Bn; reflexivity).
-          assert (Hd3 : s_deferred s3 = s_deferred s0) by (rewrite Cd, Bd; reflexivity).
-          assert (Hp3 : s_pending s3 = s_pending s0) by (rewrite Cp, Bp; reflexivity).
-          rewrite Hl3 in H.
-          set (l' := {| lr_seq := lr_seq l; lr_bytes := lr_bytes l; lr_response := Some rsp'; lr_series := lr_series l |}) in *.
-          set (s4 := upd_last s3 (Some l')) in *.
-          set (q' := seq16_next (se_ecsn se)) in *.
-          assert (Hq' : q' < 16) by apply L12.seq16_next_lt.
-          assert (Hc' : r_ctl rsp' = ctl_byte false complete nc false q') by congruence.
-          assert (Hok' : resp_ok rsp').
-          { split; [congruence|]. rewrite Hc'. apply tx_bits_ctl_byte. exact Hor. }
-          set (m2 := set_ph mC (if nc then POpen q' complete (m_clock m + cms) else PIdle)).
-          assert (Htx : mon_ob false cms mC (OTx from (response_bytes rsp' (s_sol_buf s3))) = Some m2).
-          { cbn [mon_ob]. unfold mon_tx. rewrite nth1_response_bytes, nth0_response_bytes.
-            destruct Hok' as [-> ->]. change (129 =? 129) with true. cbv iota. cbn [negb].
-            subst mC. cbn [m_ph m_clock]. rewrite Hc'. unfold c_fir, c_fin.
-            rewrite L12.ctl_byte_fir, L12.ctl_byte_seq, L12.ctl_byte_con, L12.ctl_byte_fin.
-            rewrite (N.mod_small _ _ Hq'). fold q'. rewrite !N.eqb_refl. reflexivity. }
-          assert (Hlast4 : g_last s4).
-          { intros x y Hx Hy. subst s4 l'. psimpl_in Hx. inversion Hx; subst x. cbn [lr_response lr_bytes] in *.
-            inversion Hy; subst y. split; [exact Hok'|]. intros X. rewrite (Hrd eq_refl) in X. discriminate. }
-          assert (Hrun : forall (P : mst -> Prop), P m2 ->
-                    ok m ([OInfo (ISolConfirmed (se_ecsn se))] ++ [ODb DbClearWritten] ++ o2 ++
-                          pre ++ [OTx from (response_bytes rsp' (s_sol_buf s3))]) P).
-          { intros P HP. cbn [app]. eapply okrun_cons; [discriminate|exact HmC|].
-            eapply okrun_cons with (m1 := mC); [discriminate|reflexivity|].
-            eapply okrun_app with (Q := fun x => x = mC); [apply okrun_conf; auto|]. intros ? ->.
-            eapply okrun_app with (Q := fun x => x = mC); [apply okrun_conf; auto|]. intros ? ->.
-            eapply okrun_cons; [discriminate|exact Htx|]. apply okrun_nil. exact HP. }
-          destruct nc; subst next.
-          -- inv_pair H. apply Hrun.
-             split; [split; [exact Hlast4|split; [|split; [|split]]]|].
-             ++ intros x X. apply (Gd x). subst s4. psimpl_in X. rewrite <- Hd3. exact X.
-             ++ intros a b c e f X. apply (Gp a b c e f). subst s4. psimpl_in X. rewrite <- Hp3. exact X.
-             ++ intros a b c e X. psimpl_in X. discriminate.
-             ++ intros se0 dl0 rs0 X. psimpl_in X. inversion X; subst se0 dl0 rs0. cbn [se_ecsn se_fin].
-                split; [exact Hq'|]. exists l', rsp'. subst s4. psimpl. split; [reflexivity|]. split; [reflexivity|].
-                rewrite Hc'. unfold c_fin. rewrite L12.ctl_byte_seq, L12.ctl_byte_fin, L12.ctl_byte_con.
-                rewrite (N.mod_small _ _ Hq'). repeat split; auto.
-             ++ split.
-                ** subst m2 mC s4. cbn [set_ph m_clock]. psimpl. rewrite Hn3. exact Hclk.
-                ** subst m2 mC s4. psimpl. cbn [set_ph m_ph se_ecsn se_fin]. unfold confirm_deadline. psimpl.
-                   rewrite Hclk, Hn3. reflexivity.
-          -- destruct (resume_at cfg (stage_of r) (upd_control s4 CIdle)) as [s5 o5] eqn:E5. inv_pair H.
-             match goal with |- okrun _ _ _ ?L _ =>
-               replace L with (([OInfo (ISolConfirmed (se_ecsn se))] ++ [ODb DbClearWritten] ++ o2 ++
-                                pre ++ [OTx from (response_bytes rsp' (s_sol_buf s3))]) ++ o5)
-                 by (cbn [app]; rewrite <- ?app_assoc; reflexivity) end.
-             eapply okrun_app with (Q := fun x => x = m2).
-             { apply Hrun. reflexivity. }
-             intros ? ->. eapply resume_at_good; [exact E5|reflexivity|].
-             split; [split; [exact Hlast4|split; [|split; [|split]]]|].
-             ++ intros x X. apply (Gd x). subst s4. psimpl_in X. rewrite <- Hd3. exact X.
-             ++ intros a b c e f X. apply (Gp a b c e f). subst s4. psimpl_in X. rewrite <- Hp3. exact X.
-             ++ apply g_uw_idle. reflexivity.
-             ++ apply g_wait_idle. reflexivity.
-             ++ split; [|exact I]. subst m2 mC s4. cbn [set_ph m_clock]. psimpl. rewrite Hn3. exact Hclk.
-      + (* anything else aborts the series *)
-        subst o1.
-        destruct (resume_at cfg (stage_of r) (upd_pending (upd_control s0 CIdle) (Some (from, bc, bytes, d, fid))))
-          as [s2 o2] eqn:E2. inv_pair H.
-        cbn [app]. eapply okrun_cons with (m1 := set_ph m PIdle); [discriminate|cbn [mon_ob]; rewrite Hr; reflexivity|].
-        eapply okrun_cons with (m1 := set_ph m PIdle); [discriminate|reflexivity|].
-        eapply resume_at_good; [exact E2|reflexivity|].
-        split; [split; [exact Gl|split; [exact Gd|split; [|split]]]|].
-        * intros a b c e f X. psimpl_in X. inversion X; subst. exact Hdc.
-        * apply g_uw_idle. reflexivity.
-        * apply g_wait_idle. reflexivity.
-        * split; [exact Hclk|exact I].
+      destruct st; [exfalso; specialize (Hst eq_refl); unfold nwait in Hst; rewrite Ec in Hst; exact Hst|].
+      assert (Hcur' : m_cur m = confirm_of cfg (ERx from bc bytes d)).
+      { apply Hcur. unfold nwait. rewrite Ec. auto. }
+      clear Hcur. rename Hcur' into Hcur.
+      destruct (sol_wait_rx _ _ _ _ _ _ _ _ _ _ _ H Ec Hdc HG Hcur)
+        as (o_w & o_t & s_i & m_i & -> & Hw & HGi & Ht & _).
+      eapply okrun_app; [exact Hw|]. intros ? ->.
+      destruct Ht as [[-> ->]|(stg & Hci & Er)]; [apply okrun_nil; exact HGi|].
+      eapply resume_at_good; eauto.
     - (* unsolicited confirm wait *)
+      unfold on_rx in H. cbv zeta in H.
+      set (fid := (s_frame_id s + 1) mod 4294967296) in *.
+      set (s0 := upd_frame_id s fid) in *.
+      assert (HG0 : Good s0 m) by (eapply Good_same; [..|exact HG]; reflexivity).
+      change (s_control s0) with (s_control s) in H. rewrite Ec in H.
       assert (Hn0 : nwait s0) by (unfold nwait; change (s_control s0) with (s_control s); rewrite Ec; exact I).
       destruct (unsol_wait_fragment cfg s0 resp from bc bytes d fid) as [[s1 res] o1] eqn:E1.
       pose proof (L12.unsol_wait_fragment_frame _ _ _ _ _ _ _ _ _ _ _ E1) as [(_ & Fc & _) _].
-      pose proof (unsol_wait_fragment_good cfg false _ _ _ _ _ _ _ _ _ _ m E1 Hn0 Hdc HG0) as W.
+      pose proof (unsol_wait_fragment_good cfg st _ _ _ _ _ _ _ _ _ _ m E1 Hn0 Hdc HG0) as W.
       destruct res as [x|].
       + destruct (end_unsol cfg s1 n x) as [[s2 ns] o2] eqn:E2.
         destruct (resume_at cfg (St3 ns) s2) as [s3 o3] eqn:E3. inv_pair H.
         eapply okrun_app; [exact W|]. intros m1 HG1.
         assert (Hn1 : nwait s1) by (unfold nwait; rewrite Fc; exact Hn0).
-        destruct (end_unsol_good cfg false _ _ _ _ _ _ m1 E2 Hn1 HG1) as [W2 Hc2].
+        destruct (end_unsol_good cfg st _ _ _ _ _ _ m1 E2 Hn1 HG1) as [W2 Hc2].
         eapply okrun_app; [exact W2|]. intros m2 HG2. eapply resume_at_good; eauto.
       + inv_pair H. exact W.
   Qed.
 End Rx.
+
+(* ---------- one step of the session -------------------------------------------------------------------------- *)
+
+Section Step.
+  Variable cfg : ocfg.
+  Variable st : bool.
+  Notation cms := (o_confirm_ms cfg).
+  Notation ok := (okrun st (o_confirm_ms cfg)).
+
+  Lemma ostep_good s ev ans s' o m :
+    ostep cfg s ev ans = (s', o) -> ev_cons ev -> Good s m -> (~ nwait s -> m_cur m = confirm_of cfg ev) ->
+    (st = true -> nwait s) ->
+    ok m o (GoodB s').
+  Proof.
+    unfold ostep. intros H Hev HG Hcur Hst.
+    set (s0 := upd_answers s ans) in *.
+    assert (HG0 : Good s0 m) by (eapply Good_same; [..|exact HG]; reflexivity).
+    pose proof (Good_nconf _ _ HG0) as Hnc.
+    destruct ev as [from bc bytes d|ms| |sel op|v|].
+    - destruct (on_rx cfg s0 from bc bytes d) as [s1 o1] eqn:E1.
+      destruct (advance 64 cfg s1 (s_now s1 + settle_ms)) as [s2 o2] eqn:E2. inv_pair H.
+      eapply okrun_app; [eapply on_rx_good; eauto|]. intros m1 HG1. eapply advance_good; eauto.
+    - destruct (advance 4096 cfg s0 (s_now s0 + ms)) as [sa oa] eqn:Ea. inv_pair H.
+      eapply advance_good; eauto.
+    - change (s_control s0) with (s_control s) in H.
+      destruct (s_control s) eqn:Ec.
+      + destruct (idle_loop 8 cfg s0) as [s1 o1] eqn:E1.
+        destruct (advance 64 cfg s1 (s_now s1 + settle_ms)) as [s2 o2] eqn:E2. inv_pair H.
+        eapply okrun_app; [eapply idle_loop_good; eauto|]. intros m1 HG1. eapply advance_good; eauto.
+      + destruct (advance 64 cfg (upd_notify s0 true) (s_now (upd_notify s0 true) + settle_ms)) as [s2 o2] eqn:E2.
+        inv_pair H. cbn [app]. eapply advance_good; [exact E2|]. eapply Good_same; [..|exact HG0]; reflexivity.
+      + destruct (advance 64 cfg (upd_notify s0 true) (s_now (upd_notify s0 true) + settle_ms)) as [s2 o2] eqn:E2.
+        inv_pair H. cbn [app]. eapply advance_good; [exact E2|]. eapply Good_same; [..|exact HG0]; reflexivity.
+    - inv_pair H. apply okrun_nil. apply Good_B. eapply Good_same; [..|exact HG0]; reflexivity.
+    - inv_pair H. apply okrun_nil. apply Good_B. eapply Good_same; [..|exact HG0]; reflexivity.
+    - set (s1 := upd_pending (upd_control (session_reset s0) CIdle) None) in *.
+      destruct (idle_loop 8 cfg s1) as [s2 o2] eqn:E2.
+      destruct (advance 64 cfg s2 (s_now s2 + settle_ms)) as [s3 o3] eqn:E3. inv_pair H.
+      eapply okrun_cons with (m1 := m); [discriminate|cbn [mon_ob]; destruct (m_ph m); try reflexivity; contradiction|].
+      eapply okrun_cons with (m1 := set_ph m PIdle); [discriminate|cbn [mon_ob]; destruct (m_ph m); try reflexivity; contradiction|].
+      eapply okrun_app.
+      + eapply idle_loop_good; [exact E2|reflexivity|].
+        destruct HG0 as [_ [Hclk _]].
+        split; [split; [|split; [|split; [|split]]]|].
+        * intros l r X. discriminate X.
+        * intros x X. discriminate X.
+        * intros a b c e f X. discriminate X.
+        * apply g_uw_idle. reflexivity.
+        * apply g_wait_idle. reflexivity.
+        * split; [exact Hclk|exact I].
+      + intros m1 HG1. eapply advance_good; eauto.
+  Qed.
+
+  (* start-up *)
+  Lemma ostart_good sel op iin a s o m :
+    ostart cfg sel op iin a = (s, o) -> m_ph m = PIdle -> m_clock m = 0%Z -> ok m o (Good s).
+  Proof.
+    unfold ostart. intros H Hp Hc. eapply idle_loop_good; [exact H|reflexivity|].
+    split; [split; [|split; [|split; [|split]]]|].
+    - intros l r X. discriminate X.
+    - intros x X. discriminate X.
+    - intros b c e f g X. discriminate X.
+    - apply g_uw_idle. reflexivity.
+    - apply g_wait_idle. reflexivity.
+    - split; [exact Hc|]. cbn. rewrite Hp. exact I.
+  Qed.
+End Step.
+
+(* ---------- what the strict monitor accepts when no confirm is at hand: only first fragments ------------- *)
+
+Definition sol_tx_fir (o : oobs) : Prop :=
+  match o with OTx _ b => nth 1 b 0 = 129 -> c_fir (nth 0 b 0) = true | _ => True end.
+
+Lemma mon_ob_strict_fir cms m x m1 :
+  mon_ob true cms m x = Some m1 -> m_cur m = None -> nconf (m_ph m) ->
+  m_cur m1 = None /\ nconf (m_ph m1) /\ sol_tx_fir x.
+Proof.
+  intros H Hc Hp.
+  assert (Hsame : m1 = m -> m_cur m1 = None /\ nconf (m_ph m1)) by (intros ->; auto).
+  destruct x as [d b|c|c|i| |t| |]; cbn [mon_ob sol_tx_fir] in *.
+  - unfold mon_tx in H. destruct (nth 1 b 0 =? 129) eqn:E.
+    + destruct (negb (tx_bits_ok (nth 0 b 0))); [discriminate|].
+      destruct (m_ph m) eqn:Ep; try contradiction.
+      * destruct (c_fir (nth 0 b 0)) eqn:Ef; [inv_pair H|discriminate H]. cbn. auto.
+      * destruct (c_fir (nth 0 b 0)) eqn:Ef; [inv_pair H|discriminate H]. cbn. auto.
+      * cbn [negb andb] in H. discriminate.
+    + apply N.eqb_neq in E. destruct (m_ph m) eqn:Ep; try contradiction; inv_pair H;
+        (split; [exact Hc|split; [rewrite Ep; exact I|intros X; contradiction]]).
+  - destruct c; destruct (m_ph m) eqn:Ep; try contradiction; inv_pair H; rewrite ?Ep; auto.
+  - destruct (m_ph m) eqn:Ep; try contradiction; inv_pair H; rewrite ?Ep; auto.
+  - destruct i; destruct (m_ph m) eqn:Ep; try contradiction; try discriminate H;
+      try (inv_pair H; rewrite ?Ep; cbn; auto; fail).
+    + destruct (ctl_con c && (ecsn =? ctl_seq c)); [inv_pair H|discriminate H]. cbn. auto.
+    + destruct ((ecsn =? q) && (dl <=? m_clock m)%Z); [inv_pair H|discriminate H]. cbn. auto.
+    + rewrite Hc in H. discriminate.
+  - destruct (m_ph m) eqn:Ep; try contradiction; inv_pair H; cbn; auto.
+  - destruct (m_ph m) eqn:Ep; try contradiction; inv_pair H; cbn; rewrite ?Ep; auto.
+  - inv_pair H. auto.
+  - destruct (m_ph m) eqn:Ep; try contradiction; inv_pair H; rewrite ?Ep; auto.
+Qed.
+
+Lemma obrun_strict_fir cms : forall o m,
+  m_cur m = None -> nconf (m_ph m) -> obrun true cms m o <> Bad -> ~ In OOutOfFuel o -> Forall sol_tx_fir o.
+Proof.
+  induction o as [|x r IH]; intros m Hc Hp Hb Hf; [constructor|].
+  assert (Hx : x <> OOutOfFuel) by (intros ->; apply Hf; left; reflexivity).
+  destruct (mon_ob true cms m x) as [m1|] eqn:E.
+  - destruct (mon_ob_strict_fir _ _ _ _ E Hc Hp) as (A & B & C).
+    constructor; [exact C|]. apply (IH m1); auto.
+    + cbn [obrun] in Hb. destruct x; try (rewrite E in Hb; exact Hb). contradiction Hx. reflexivity.
+    + intros X. apply Hf. right. exact X.
+  - exfalso. apply Hb. cbn [obrun]. destruct x; try (rewrite E; reflexivity). contradiction Hx. reflexivity.
+Qed.
+
+Lemma okrun_not_bad st cms m o (P : mst -> Prop) : okrun st cms m o P -> obrun st cms m o <> Bad.
+Proof. unfold okrun. destruct (obrun st cms m o); [contradiction|discriminate|discriminate]. Qed.
+
+Lemma Good_set_cur s m c : Good s m -> Good s {| m_ph := m_ph m; m_cur := c; m_clock := m_clock m |}.
+Proof. intros H. exact H. Qed.
+
+Lemma okrun_live st cms m o (P : mst -> Prop) :
+  okrun st cms m o P -> ~ In OOutOfFuel o -> exists m', obrun st cms m o = Live m' /\ P m'.
+Proof.
+  revert m. induction o as [|x r IH]; intros m H Hf; [exists m; split; [reflexivity|exact H]|].
+  assert (Hx : x <> OOutOfFuel) by (intros ->; apply Hf; left; reflexivity).
+  unfold okrun in *. cbn [obrun] in *.
+  destruct (mon_ob st cms m x) as [m1|] eqn:E.
+  - destruct x; try (apply IH; [exact H|intros X; apply Hf; right; exact X]); contradiction Hx; reflexivity.
+  - destruct x; try contradiction; contradiction Hx; reflexivity.
+Qed.
